@@ -212,9 +212,14 @@ func runC07HandshakeN(c *mon.Case, k int, n uint8) {
 				p.S2C.Inject(hostile[rng.Intn(len(hostile))])
 				p.S2C.Inject([]byte{sim.TNack, n})
 				p.S2C.Inject([]byte{sim.TAck, n})
-				hctx, hcancel := context.WithTimeout(ctx, 20*time.Second)
+				// The constructor's context is the connection's context
+				// for life: only a handshake that does not return within
+				// 20 s is cancelled.
+				hctx, hcancel := context.WithCancel(ctx)
+				defer hcancel()
+				tm := time.AfterFunc(20*time.Second, hcancel)
 				g, err := gbn.NewClientConn(hctx, 5, p.C2S.Send, p.S2C.Recv, conf.ClientOpts()...)
-				hcancel()
+				tm.Stop()
 				if err == nil {
 					time.Sleep(5 * time.Second)
 					if d := gbnInvariant(g); d != "" {
@@ -226,9 +231,11 @@ func runC07HandshakeN(c *mon.Case, k int, n uint8) {
 				for _, b := range script {
 					p.C2S.Inject(b)
 				}
-				hctx, hcancel := context.WithTimeout(ctx, 20*time.Second)
+				hctx, hcancel := context.WithCancel(ctx)
+				defer hcancel()
+				tm := time.AfterFunc(20*time.Second, hcancel)
 				g, err := gbn.NewServerConn(hctx, p.S2C.Send, p.C2S.Recv, conf.ServerOpts()...)
-				hcancel()
+				tm.Stop()
 				if err == nil {
 					// let it chew on the rest, then use it
 					time.Sleep(2 * time.Second)
